@@ -34,7 +34,7 @@ RULE = ('exhaustive small scope: unique on every indexed-string column of length
         '7 strings x all 128 subsets of the 6 strings + None as list, and through real fields as list/set/array; '
         'numeric (int32/int8/bool/float32), categorical, timestamp and fixed-string fields: all columns of length <= 4 '
         'over 4 values x 8 flag combinations, isin over all 64 test subsets incl. None; then seeded random longer '
-        'columns over a 26-string alphabet (1- to 4-byte characters, prefixes, equal lengths) and a malformed stream '
+        'columns (up to 60 rows, up to 26 distinct) over a 26-string alphabet (1- to 4-byte characters, prefixes, equal lengths) and a malformed stream '
         '(NUL code points, invalid UTF-8, inconsistent offsets, test set None). HDF5-backed cases cost ~5 ms each, '
         'hence the smaller bounds at that level. Non-trivial = reaches a planted feature.')
 EXHAUSTIVE = {'quick': True, 'thorough': True}
@@ -310,6 +310,7 @@ def features(case, model):
     if case['op'] == 'unique':
         f.append('flags:%d%d%d' % tuple(int(bool(x)) for x in case['flags']))
         d, order = _first_occ_perm(rows)
+        if len(d) > 16: f.append('>16-distinct')
         if order != list(range(len(d))): f.append('sort-permutes')
         if any(order[order[k]] != k for k in range(len(d))): f.append('sort-perm-not-involution')
         if ft == 'istr':
@@ -339,6 +340,7 @@ def features(case, model):
         if len(set(tk)) < len(tk): f.append('tests-duplicates')
         if len(set(tk)) >= 4: f.append('tests>=4-distinct')
         if len(set(tk)) >= 8: f.append('tests>=8-distinct')
+        if len(set(tk)) > 16: f.append('tests>16-distinct')
         hit = [r in set(tk) for r in rows]
         if any(hit): f.append('row-hit')
         if not all(hit) and rows: f.append('row-miss')
@@ -477,6 +479,19 @@ def gen(tier, rng):
             yield {'op': 'isin', 'ft': 'istr', 'level': level, 'col': col, 'tests': tests,
                    'tkind': 'list' if level == 'ops' else rng.choice(kinds),
                    'via': 'method' if level == 'ops' else rng.choice(['method', 'module'])}
+    # columns with more than 16 distinct strings (numpy leaves its small-array insertion sort)
+    for _ in range(600 if big else 150):
+        n = rng.randint(20, 60)
+        pool = rng.sample(AB, rng.randint(17, len(AB)))
+        col = [rng.choice(pool) for _ in range(n)]
+        level = rng.choice(['ops', 'ops', 'mem', 'h5'])
+        if rng.random() < 0.6:
+            yield {'op': 'unique', 'ft': 'istr', 'level': level, 'col': col, 'flags': rng.choice(FLAGS8[1:])}
+        else:
+            tests = rng.sample(AB, rng.randint(17, len(AB))) + [None]
+            rng.shuffle(tests)
+            yield {'op': 'isin', 'ft': 'istr', 'level': level, 'col': col, 'tests': tests,
+                   'tkind': 'list' if level == 'ops' else rng.choice(kinds), 'via': 'method'}
     for _ in range(2000 if big else 400):
         ft = rng.choice(PLAIN_FTS)
         pool, extra = _plain_pool(ft)
